@@ -8,7 +8,7 @@ declares `b`, reads `self.attr.a` and has the signature `<%page args="p, x=9"/>`
 def ex3 : List Level :=
   [ { nodes := [.text 1, .block (some ['b']) 1 [.text 2, .call .parent ['b'] [] []], .args],
       inherit := .dynamic, sig := [(['x'], some 0)] },
-    { nodes := [.text 3, .call .next bodyName [] [(['x'], 5), (['q'], 6)], .defn ['d'] [.text 8]],
+    { nodes := [.text 3, .call .next bodyName [] [(['x'], 5), (['q'], 6)], .defn ['d'] [] [.text 8]],
       inherit := .static, attrs := [(['a'], 7)] },
     { nodes := [.text 4, .block (some ['b']) 2 [.text 5], .call .next bodyName [] [], .attr .self ['a'], .args],
       sig := [(['p'], none), (['x'], some 9)] } ]
